@@ -5,12 +5,18 @@ Model: `Cutadapt.Kmer` (`kmer_heuristic.py`, `_kmer_finder.pyx`, `_make_kmer_fin
 classes). `Kmer.matchToFiltered a read beyond` is `match_to` as coded (prefilter, then aligner); `Adapters.matchTo a read`
 is the aligner alone (what `MockKmerFinder` gives).
 
-The property is **false** on the current tree (`prefilter_unsafe_witness`, `prefilter_not_safe`). What is proved without
-restriction: the bit-parallel search is exact (`shift_and_correct`, `shift_and_correct_entry`, `kmers_present_spec`),
-`kmer_chunks` meets its specification, the pigeonhole argument for edit scripts, and the absence of the
-`NotImplementedError` path. `prefilter_safe_partial` proves the property for the fragment that is true:
-matches spanning the whole adapter of the adapter classes that search the chunks of the whole adapter in the whole read
-(regular 3', regular 5', rightmost 5', anywhere), anchored adapters without indels, and — trivially — reads without a match. -/
+The property is **false** on the current tree (`prefilter_unsafe_witness`, `prefilter_not_safe`), in five ways:
+(i) anchored / non-internal adapters with indels, (ii) `anywhere` adapters on reads inside the adapter, (iii) 5' windows read
+past the end of short reads — known from the design phase — and, found while this file was written, (iv) NUL bytes in
+the read against `N` wildcards and (v) *regular* 3'/5'/rightmost adapters that allow two or more errors (same cause as (i):
+the overlap windows have no slack for insertions).
+
+Proved without restriction: the bit-parallel search is exact (`shift_and_correct`, `shift_and_correct_entry`,
+`kmers_present_spec`), `kmer_chunks` meets its specification, the pigeonhole argument for edit scripts, the absence of the
+`NotImplementedError` path, the content of the whole-read entry (`internal_entry`), and that the prefilter can only remove
+a match (`prefilter_only_removes`). `prefilter_safe_partial` proves the property for the fragment that is true: matches
+spanning the whole adapter for the classes that search the chunks of the whole adapter in the whole read (regular 3',
+regular 5', rightmost 5', anywhere), anchored adapters without indels, and — trivially — reads without a match. -/
 namespace Cutadapt.C07
 open Cutadapt Cutadapt.Spec Cutadapt.Kmer Cutadapt.Adapters Cutadapt.Align Cutadapt.Generated
 
@@ -154,6 +160,10 @@ def w2 : Adapter := mkA .anywhere [84, 84, 71, 84] (· / 5) 1 false
 def w3 : Adapter := mkA .front [65, 67, 71, 84, 65, 67, 71, 84, 65, 67] (fun _ => 0) 3 false
 /-- (iv) `BackAdapter("NACGTACGT", max_errors=0, min_overlap=3)` (wildcards in the adapter) -/
 def w4 : Adapter := mkA .back [78, 65, 67, 71, 84, 65, 67, 71, 84] (fun _ => 0) 3 true
+/-- (v) `BackAdapter("TCAAAACAGTTCAATGTGA", max_errors=0.15, min_overlap=3)` — a regular 3' adapter -/
+def w5 : Adapter := mkA .back [84, 67, 65, 65, 65, 65, 67, 65, 71, 84, 84, 67, 65, 65, 84, 71, 84, 71, 65] (· * 3 / 20) 3 false
+/-- `TCAAAATCAGTTACAATGTG`: the first 18 adapter bases with two inserted bases -/
+def r5 : Bytes := [84, 67, 65, 65, 65, 65, 84, 67, 65, 71, 84, 84, 65, 67, 65, 65, 84, 71, 84, 71]
 
 /-- **Counterexamples** (each replayed against the real code by the check):
     (i) anchored 3' adapter with indels, read `CGTGCGGATAT`: the aligner finds `GCGGATAT` (one insertion), the prefilter
@@ -162,7 +172,11 @@ def w4 : Adapter := mkA .back [78, 65, 67, 71, 84, 65, 67, 71, 84] (fun _ => 0) 
     (iii) 5' adapter, empty read: the window `[0, 10)` is read from memory behind the read — the verdict is true or false
         depending on what happens to be there;
     (iv) a NUL byte in the read matches the adapter's `N` wildcard in the aligner but nothing in the finder's tables
-        (`matches_lookup` drops `\0`): regular 3' adapter `NACGTACGT`, read `TTTT\0ACGTACGTGGGGGGGGGG`. -/
+        (`matches_lookup` drops `\0`): regular 3' adapter `NACGTACGT`, read `TTTT\0ACGTACGTGGGGGGGGGG`;
+    (v) the window defect of (i) also hits *regular* adapters: 19-base 3' adapter with 15 % errors, the read consists of the
+        first 18 adapter bases with two insertions (20 characters): the aligner reports them with 2 errors; the search set for
+        two errors looks at the last 19 characters only, its first k-mer starts one character earlier, the other k-mers and
+        all k-mers of the whole-adapter search are broken by the insertions. -/
 theorem prefilter_unsafe_witness :
     (matchTo w1 [67, 71, 84, 71, 67, 71, 71, 65, 84, 65, 84] = some ⟨0, 7, 3, 11, 5, 1, false⟩ ∧
      matchToFiltered w1 [67, 71, 84, 71, 67, 71, 71, 65, 84, 65, 84] [] = none) ∧
@@ -171,7 +185,8 @@ theorem prefilter_unsafe_witness :
     (matchTo w4 [84, 84, 84, 84, 0, 65, 67, 71, 84, 65, 67, 71, 84, 71, 71, 71, 71, 71, 71, 71, 71, 71, 71]
         = some ⟨0, 9, 4, 13, 9, 0, false⟩ ∧
      matchToFiltered w4 [84, 84, 84, 84, 0, 65, 67, 71, 84, 65, 67, 71, 84, 71, 71, 71, 71, 71, 71, 71, 71, 71, 71] []
-        = none) := by
+        = none) ∧
+    (matchTo w5 r5 = some ⟨0, 18, 0, 20, 14, 2, false⟩ ∧ matchToFiltered w5 r5 [] = none) := by
   decide +kernel
 
 theorem w1_ok : AdapterOK w1 where
